@@ -319,9 +319,15 @@ impl Indexable for ast::ForeachIteratorInit {
 impl Indexable for ast::If {
     type Output = ();
     fn index(&self, ctx: &mut IndexCtx) -> Option<Self::Output> {
-        self.condition()?.index(ctx);
-        self.then_body()?.index(ctx);
-        self.else_body()?.index(ctx);
+        if let Some(condition) = self.condition() {
+            condition.index(ctx);
+        }
+        // each branch is a scope of its own: a defvar inside does not outlive it
+        for body in [self.then_body(), self.else_body()].into_iter().flatten() {
+            ctx.scopes.push(ScopeKind::Block);
+            body.index(ctx);
+            ctx.scopes.pop();
+        }
         None
     }
 }
@@ -330,7 +336,12 @@ impl Indexable for ast::Let {
     type Output = ();
     fn index(&self, ctx: &mut IndexCtx) -> Option<Self::Output> {
         self.let_list()?.index(ctx);
-        self.statement_list()?.index(ctx);
+        // the body is a scope of its own: a defvar inside does not outlive it
+        if let Some(body) = self.statement_list() {
+            ctx.scopes.push(ScopeKind::Block);
+            body.index(ctx);
+            ctx.scopes.pop();
+        }
         None
     }
 }
